@@ -15,6 +15,10 @@ static unsigned w_prop_bit(const char *id) { return !strcmp(id, "C03") ? PC03 : 
 
 #define MAXN 8
 #define MAXB 16
+#ifndef NOPRIV_DEPTH
+#define NOPRIV_DEPTH 4
+#endif
+static int nopriv_hist[64], nopriv_n;      /* HASH_NOPRIV: the operation history is the key */
 struct elem { long pad; int idx; struct cstl_hash_node hn; long pad2; struct cstl_hash_node hn2; long tail; };
 /* the two table objects are initialised with DIFFERENT node offsets (hn / hn2): swap must carry the offset along with the table */
 static size_t m_off[2];
@@ -117,7 +121,12 @@ static void w_init(void)
     shim_reset(); vbad = 0;
     __asan_unpoison_memory_region(pool, sizeof pool);
     memset(pool, 0x5A, sizeof pool);
-    for (i = 0; i < N; i++) { pool[i].idx = i; pool[i].pad = 0x1111; pool[i].tail = 0x2222; pool[i].pad2 = 0x3333; pool[i].hn.key = (size_t)keys[i]; pool[i].hn.next = NULL; pool[i].hn2.key = (size_t)keys[i]; pool[i].hn2.next = NULL; m_member[i] = 0; }
+    for (i = 0; i < N; i++) { pool[i].idx = i; pool[i].pad = 0x1111; pool[i].tail = 0x2222; pool[i].pad2 = 0x3333; m_member[i] = 0;
+#if !HASH_NOPRIV
+        pool[i].hn.key = (size_t)keys[i]; pool[i].hn.next = NULL; pool[i].hn2.key = (size_t)keys[i]; pool[i].hn2.next = NULL;
+#endif
+    }
+    nopriv_n = 0;
     m_count = 0; m_resized = 0; m_nreq = 0; m_freq = F_MUL; m_forced_settled = 1; cur = 0; m_budget = -1; m_since = 0;
     m_off[0] = offsetof(struct elem, hn); m_off[1] = offsetof(struct elem, hn2);
     for (t = 0; t < 2; t++) {
@@ -130,6 +139,9 @@ static void w_init(void)
 
 static int w_enabled(mc_op_t o)
 {
+#if HASH_NOPRIV
+    if (nopriv_n >= NOPRIV_DEPTH) return 0;      /* history keys: every sequence up to this depth */
+#endif
     switch (OC(o)) {
     case O_INSERT: return m_resized && !m_member[OA(o)];
     case O_ERASE: case O_FIND: return m_resized;              /* keyed operations need buckets */
@@ -154,12 +166,33 @@ static int idx_of_node(const struct cstl_hash_node *n)
 }
 
 /* ---- snapshot of the public struct: which bucket holds which node, dirty flags ---- */
+/* HASH_NOPRIV=1: a build that names no private member of the table (used by the driver when the tree under test has renamed or re-encoded them).
+ * The key degrades to the operation history (no state merging: every sequence up to the depth the deadline allows), the rehash accounting of C19 -
+ * which is ABOUT those members - is off, and what remains is everything the public API shows: size, find of every key, both enumerations, load,
+ * the logged consultations of the user hash functions, clear callbacks, the allocation layer and the sanitizer. */
+#ifndef HASH_NOPRIV
+#define HASH_NOPRIV 0
+#endif
+#if HASH_NOPRIV
+#define H_PENDING(h) 0
+#define H_BCOUNT(h) ((size_t)0)
+#define H_FID_CUR(h) (-1)
+#define H_FID_RH(h) (-1)
+#else
+#define H_PENDING(h) ((h)->bucket.rh.hash != NULL)
+#define H_BCOUNT(h) ((h)->bucket.count)
+#define H_FID_CUR(h) fid((h)->bucket.hash)
+#define H_FID_RH(h) fid((h)->bucket.rh.hash)
+#endif
 struct snap { int pending; size_t count, rhcount, bound; int dirty[MAXB]; int bucket_of[MAXN]; int nnodes[MAXB]; int ndirty; int bad; };
 static void take_snap(const struct cstl_hash *h, struct snap *s)
 {
     size_t b; int i;
     memset(s, 0, sizeof *s);
     for (i = 0; i < MAXN; i++) s->bucket_of[i] = -1;
+#if HASH_NOPRIV
+    (void)h; (void)b;
+#else
     s->pending = h->bucket.rh.hash != NULL;
     s->count = h->bucket.count; s->rhcount = s->pending ? h->bucket.rh.count : 0;
     s->bound = s->count > s->rhcount ? s->count : s->rhcount;
@@ -179,6 +212,7 @@ static void take_snap(const struct cstl_hash *h, struct snap *s)
         }
         if (steps > N) s->bad = 1;
     }
+#endif
 }
 
 /* ---- callbacks ---- */
@@ -307,6 +341,10 @@ static void keyed_post(const char *what, int own_elem)
 {
     int lookup = !strcmp(what, "find");
     int i, srcs[MAXB], nsrc = 0, cleaned = 0, cleaned_nodes = 0; size_t b;
+#if HASH_NOPRIV
+    (void)lookup; (void)i; (void)srcs; (void)nsrc; (void)cleaned; (void)cleaned_nodes; (void)b; (void)own_elem;
+    return;
+#endif
     take_snap(T, &post);
     MC_CHECK(PALL, !post.bad && !pre.bad, "bucket chains are corrupt (cycle or count beyond capacity)");
     if (post.bad || pre.bad) return;
@@ -342,13 +380,18 @@ static void keyed_post(const char *what, int own_elem)
 /* The node of an element that is not in the table holds stale bytes (the API takes uninitialised nodes): before every operation it gets a wrong key and a
  * plausible stale link (the next pool element's node), so that an insert relying on either being already set is seen and the content of such nodes is a
  * function of the state. */
+#if HASH_NOPRIV
+static void scrub_free(void) { int i; for (i = 0; i < N; i++) if (!m_member[i]) memset(&pool[i].hn, 0x5A, sizeof pool[i].hn); }
+#else
 static void scrub_free(void) { int i; for (i = 0; i < N; i++) if (!m_member[i]) { pool[i].hn.key = ~(size_t)keys[i]; pool[i].hn.next = &pool[(i + 1) % N].hn; } }
+#endif
 static void w_apply(mc_op_t o)
 {
     int a = OA(o), b = OB(o), ab = 0, i;
     static void * volatile rp;
     static volatile int r;
     scrub_free();
+    if (nopriv_n < 64) nopriv_hist[nopriv_n++] = (int)o;
     switch (OC(o)) {
     case O_INSERT:
         if (mc_checking) keyed_pre();
@@ -402,7 +445,7 @@ static void w_apply(mc_op_t o)
         take_snap(T, &s0);
         if (n > 0 && m_resized) {
             int eff_f = f == F_NULL ? m_freq : f;
-            if (s0.pending) { MC_COUNT(K_RESIZE_WHILE_PENDING); if (n == s0.count && (f == F_NULL || f == fid(T->bucket.hash)) && (n != m_nreq || eff_f != m_freq)) MC_COUNT(K_RESIZE_BACK); }
+            if (s0.pending) { MC_COUNT(K_RESIZE_WHILE_PENDING); if (n == s0.count && (f == F_NULL || f == H_FID_CUR(T)) && (n != m_nreq || eff_f != m_freq)) MC_COUNT(K_RESIZE_BACK); }
             if (n > m_nreq) MC_COUNT(K_GROW); else if (n < m_nreq) MC_COUNT(K_SHRINK);
             if (eff_f != m_freq) MC_COUNT(K_FUNC_CHANGE);
         }
@@ -412,7 +455,7 @@ static void w_apply(mc_op_t o)
         if (n == 0) break;                                    /* documented: does nothing */
         {
             int newf = f != F_NULL ? f : m_freq;              /* NULL keeps the function most recently requested; cstl_hash_mul if none ever */
-            if (!m_resized || n != m_nreq || newf != m_freq) { m_forced_settled = !m_resized; m_budget = T->bucket.rh.hash != NULL ? (int)T->bucket.count : -1; m_since = 0; }
+            if (!m_resized || n != m_nreq || newf != m_freq) { m_forced_settled = !m_resized; m_budget = H_PENDING(T) ? (int)H_BCOUNT(T) : -1; m_since = 0; }
             m_nreq = n; m_freq = newf; m_resized = 1;
         }
         SHIM_CALL(ab, ld = cstl_hash_load(T));
@@ -425,7 +468,7 @@ static void w_apply(mc_op_t o)
     case O_REHASH:
         SHIM_CALL(ab, cstl_hash_rehash(T));
         m_forced_settled = 1;
-        if (!ab) MC_CHECK(PC19, T->bucket.rh.hash == NULL, "cstl_hash_rehash returned with the rehash still pending");
+        if (!ab) MC_CHECK(PC19, !H_PENDING(T), "cstl_hash_rehash returned with the rehash still pending");
         break;
     case O_SHRINK:
         SHIM_CALL(ab, cstl_hash_shrink_to_fit(T));
@@ -439,7 +482,7 @@ static void w_apply(mc_op_t o)
     case O_FOREACH: case O_FOREACH_STOP: case O_FOREACH_ERASE: case O_FOREACH_FIND: {
         int n0 = m_count, code = OC(o);
         if (code == O_FOREACH_FIND) { v_nested = 1; nested_bad = nested_calls = 0; MC_COUNT(K_REENTRANT); }
-        if (T->bucket.rh.hash != NULL) MC_COUNT(K_FOREACH_PENDING);
+        if (H_PENDING(T)) MC_COUNT(K_FOREACH_PENDING);
         if (code == O_FOREACH_ERASE) MC_COUNT(K_FE_ERASE);
         v_n = 0; v_stop_at = code == O_FOREACH_STOP ? a : -1; fe_which = a;
         SHIM_CALL(ab, r = cstl_hash_foreach(T, code == O_FOREACH_ERASE ? cb_erase : cb_count, &vcookie));
@@ -460,12 +503,12 @@ static void w_apply(mc_op_t o)
             if (a == 255) { for (i = 0; i < N; i++) m_member[i] = 0; m_count = 0; }
             else if (a < v_n && v_seq[a] >= 0 && m_member[v_seq[a]]) { m_member[v_seq[a]] = 0; m_count--; }
         }
-        MC_CHECK(PC19 | PC04, T->bucket.rh.hash == NULL, "cstl_hash_foreach returned with the rehash still pending");
+        MC_CHECK(PC19 | PC04, !H_PENDING(T), "cstl_hash_foreach returned with the rehash still pending");
         break;
     }
     case O_CLEAR_CB: case O_CLEAR_NULL: {
         int cb = OC(o) == O_CLEAR_CB;
-        MC_COUNT(K_CLEAR); if (T->bucket.rh.hash != NULL) MC_COUNT(K_CLEAR_PENDING);
+        MC_COUNT(K_CLEAR); if (H_PENDING(T)) MC_COUNT(K_CLEAR_PENDING);
         memset(clr_count, 0, sizeof clr_count); clr_bad = 0;
         SHIM_CALL(ab, cstl_hash_clear(T, cb ? cb_clear : NULL));
         __asan_unpoison_memory_region(pool, sizeof pool);
@@ -487,14 +530,14 @@ static void w_apply(mc_op_t o)
         int keyed = OC(o) == O_INSERT || OC(o) == O_ERASE || OC(o) == O_FIND || OC(o) == O_FIND_RE;
         if (keyed && m_budget >= 0) {
             m_since++;
-            MC_CHECK(PC19, T->bucket.rh.hash == NULL || m_since < m_budget, "the rehash is still pending after %d keyed operations although the table had only %d buckets when it started", m_since, m_budget);
+            MC_CHECK(PC19, !H_PENDING(T) || m_since < m_budget, "the rehash is still pending after %d keyed operations although the table had only %d buckets when it started", m_since, m_budget);
         }
-        if (T->bucket.rh.hash == NULL) { m_budget = -1; m_since = 0; }
+        if (!H_PENDING(T)) { m_budget = -1; m_since = 0; }
     }
     if (ab) MC_CHECK(PALL, 0, "unexpected %s inside the library: %s", ab == 3 ? "non-termination (a library call still running after 3 s)" : ab == 2 ? "assertion failure" : "abort()", ab == 2 ? shim_assert_msg : "");
     else if (mc_checking) {
         MC_CHECK(PALL, shim_errors == 0, "the table passed a pointer to free()/realloc() that it does not own");
-        if (m_forced_settled && m_resized) MC_CHECK(PC19, T->bucket.rh.hash == NULL || OC(o) == O_RESIZE, "a rehash is pending although it was forced to completion and no new geometry was requested");
+        if (m_forced_settled && m_resized) MC_CHECK(PC19, !H_PENDING(T) || OC(o) == O_RESIZE, "a rehash is pending although it was forced to completion and no new geometry was requested");
     }
 }
 
@@ -533,13 +576,20 @@ static void w_audit(void)
     if (m_resized) {
         size_t heading = s.pending ? s.rhcount : s.count;
         MC_CHECK(PC19, heading == m_nreq, "the table is heading for %zu buckets, the most recent request was %zu", heading, m_nreq);
-        if (m_freq != F_MUL) MC_CHECK(PC19, fid(s.pending ? T->bucket.rh.hash : T->bucket.hash) == m_freq, "the table is heading for hash function #%d, the most recent request was #%d", fid(s.pending ? T->bucket.rh.hash : T->bucket.hash), m_freq);
+        if (m_freq != F_MUL) MC_CHECK(PC19, (s.pending ? H_FID_RH(T) : H_FID_CUR(T)) == m_freq, "the table is heading for hash function #%d, the most recent request was #%d", (s.pending ? H_FID_RH(T) : H_FID_CUR(T)), m_freq);
     }
     MC_CHECK(PC03 | PC04, vbad == 0, "a visit callback received a private pointer other than the one the caller passed (%d calls)", vbad);
-    for (k = 0; k < N; k++) MC_CHECK(PC03, pool[k].pad == 0x1111 && pool[k].tail == 0x2222 && pool[k].idx == k && pool[k].pad2 == 0x3333 && (!m_member[k] || pool[k].hn.key == (size_t)keys[k]) && pool[k].hn2.key == (size_t)keys[k], "element %d: key or bytes outside its hash node were modified", k);
+    for (k = 0; k < N; k++) MC_CHECK(PC03, pool[k].pad == 0x1111 && pool[k].tail == 0x2222 && pool[k].idx == k && pool[k].pad2 == 0x3333
+#if !HASH_NOPRIV
+        && (!m_member[k] || pool[k].hn.key == (size_t)keys[k]) && pool[k].hn2.key == (size_t)keys[k]
+#endif
+        , "element %d: key or bytes outside its hash node were modified", k);
 }
 
 /* canonical key */
+#if HASH_NOPRIV
+static void canon_one(int t) { int k; KB_C('H'); KB_U((unsigned)t); if (t == 0) for (k = 0; k < nopriv_n; k++) { KB_U((unsigned)nopriv_hist[k]); KB_C('.'); } }
+#else
 static void canon_one(int t)
 {
     const struct cstl_hash *h = &TB[t];
@@ -557,6 +607,7 @@ static void canon_one(int t)
         KB_C(']');
     }
 }
+#endif
 static void w_canon(void)
 {
     KB_C('v'); KB_U((unsigned)(vbad != 0)); KB_C('c'); KB_U((unsigned)cur); canon_one(0); canon_one(1); KB_C('O'); KB_U(m_off[0]); KB_C(','); KB_U(m_off[1]);
@@ -586,4 +637,4 @@ static void w_opname(mc_op_t o, char *b, size_t n)
     default: snprintf(b, n, "clear(NULL)"); break;
     }
 }
-static int w_nontrivial(void) { return TB[cur].bucket.rh.hash != NULL; }
+static int w_nontrivial(void) { return H_PENDING(&TB[cur]); }
